@@ -407,7 +407,10 @@ def memo_table_findings(repo: Repo, classes: Iterable[str]) -> List[Tuple[FuncIn
                         return any(n in lookups or (isinstance(n, ast.Name) and n.id in lookup_locals) for n in ast.walk(e))
                     hit = any(from_table(r.value) for r in rets) or \
                         (isinstance(stored, ast.Name) and stored.id in lookup_locals) or \
-                        (key is None and len(lookups) >= 2)   # lazily initialised slot that is then used
+                        (key is None and len(lookups) >= 2) or \
+                        (key is not None and any(isinstance(n, ast.Name) and n.id in lookup_locals and isinstance(n.ctx, ast.Load)
+                                                 and not isinstance(getattr(n, "_parent", None), ast.Compare)
+                                                 for n in walk(m.node)))   # ... or used in place (iterated, called)
                     if not hit:
                         continue
                     inputs = _inputs_of(m.node, st.node)
@@ -435,8 +438,37 @@ def memo_table_findings(repo: Repo, classes: Iterable[str]) -> List[Tuple[FuncIn
                                     f"self.{attr} is computed once from per-call input(s) {sorted(deps)} and reused for later calls "
                                     f"with other inputs"))
                     # staleness: other methods mutating state the computation reads
-                    body_reads = {p_[5:].split(".")[0].split("[")[0].replace("()", "") for p_ in paths_in(m.node)
-                                  if p_.startswith("self.")} - {attr}
+                    # what the memoised computation reads: the method's own body and the same-class helpers it calls
+                    comp_nodes = [m.node]
+                    seen_h = {m.name}
+                    frontier_h = [m.node]
+                    while frontier_h and len(comp_nodes) < 6:
+                        cur_h = frontier_h.pop()
+                        for c_ in walk(cur_h):
+                            if isinstance(c_, ast.Call) and isinstance(c_.func, ast.Attribute) and isinstance(c_.func.value, ast.Name) \
+                                    and c_.func.value.id == "self" and c_.func.attr in ci.methods and c_.func.attr not in seen_h:
+                                seen_h.add(c_.func.attr)
+                                comp_nodes.append(ci.methods[c_.func.attr].node)
+                                frontier_h.append(ci.methods[c_.func.attr].node)
+                    body_reads = {p_[5:].split(".")[0].split("[")[0].replace("()", "") for cn in comp_nodes for p_ in paths_in(cn)
+                                  if p_.startswith("self.")} - {attr} - seen_h
+                    # parts of the source the cached value depends on beyond the entry for its own key: a read under a
+                    # constant key or of the whole container.  Then a writer of the source must drop the WHOLE memo.
+                    wide_reads = set()
+                    if key is not None:
+                        for cn in comp_nodes:
+                            for n_ in walk(cn):
+                                src_path, k_ = None, None
+                                if isinstance(n_, ast.Subscript) and isinstance(n_.ctx, ast.Load):
+                                    src_path, k_ = ap(n_.value), n_.slice
+                                elif isinstance(n_, ast.Call) and isinstance(n_.func, ast.Attribute) and n_.func.attr == "get" and n_.args:
+                                    src_path, k_ = ap(n_.func.value), n_.args[0]
+                                elif isinstance(n_, ast.Call) and isinstance(n_.func, ast.Attribute) and n_.func.attr in ("values", "items", "keys"):
+                                    src_path, k_ = ap(n_.func.value), ast.Constant(value="*all*")
+                                elif isinstance(n_, (ast.For, ast.comprehension)) and (ap(n_.iter) or "").startswith("self."):
+                                    src_path, k_ = ap(n_.iter), ast.Constant(value="*all*")
+                                if src_path and src_path.startswith("self.") and src_path != table and isinstance(k_, ast.Constant):
+                                    wide_reads.add(src_path[5:].split(".")[0])
                     for other in ci.methods.values():
                         if other is m or other.name == "__init__":
                             continue
@@ -464,6 +496,15 @@ def memo_table_findings(repo: Repo, classes: Iterable[str]) -> List[Tuple[FuncIn
                                             bad = mu
                             except Exception:
                                 bad = None
+                        if bad is None and invs and wide_reads & {s.path[5:].split(".")[0].split("[")[0] for s in muts}:
+                            whole = [s for s in invs if (s.kind == "mutcall" and s.method == "clear" and s.path == table) or
+                                     (s.kind == "assign" and s.path == table)]
+                            if not whole:
+                                out.append((m, st.node, f"{ci.name}.{m.name}: memo self.{attr} dropped as a whole when {other.name} changes "
+                                                        f"a source entry every cached value depends on",
+                                            f"the cached value for one key also reads self.{sorted(wide_reads)} under a fixed key / as a whole, "
+                                            f"but {other.name} only removes single entries of self.{attr} when it changes that source: the "
+                                            f"other entries keep answers computed from the old state"))
                         if bad is not None:
                             touched = sorted({s.path[5:].split(".")[0].split("[")[0] for s in muts})
                             out.append((m, st.node, f"{ci.name}.{m.name}: memo self.{attr} invalidated whenever {other.name} changes what it depends on",
